@@ -107,49 +107,49 @@ def inject(crate, hdir, variant):
         with open(sp, "a") as f:
             f.write("\n#[cfg(kani)]\n#[path = \"%s\"]\npub mod verif_kani;\n" % hp)
     if variant == "mapsub":
+        for src, h in MAPSUB_INJECT.items():
+            hp = os.path.join(hdir, h)
+            if os.path.exists(hp):
+                with open(os.path.join(crate, src), "a") as f:
+                    f.write("\n#[cfg(kani)]\n#[path = \"%s\"]\npub mod verif_kani_ms;\n" % hp)
         mapsub(crate)
 
 
+MAPSUB_INJECT = {"src/db.rs": "db_ms.rs", "src/log.rs": "log_ms.rs", "src/column.rs": "column_ms.rs"}
+
+
 def mapsub(crate):
-    """Redirect HashMap/HashSet/hash_map::Entry imports to the fixed-capacity model (DESIGN 3.4)."""
+    """Redirect the HashMap/HashSet/hash_map::Entry imports of db.rs, log.rs, column.rs, options.rs to the
+    fixed-capacity model crate::verif_map (DESIGN 3.4). Only `use` items and fully qualified paths are touched."""
     for src in MAPSUB_FILES:
         p = os.path.join(crate, src)
         s = open(p).read()
-        n = 0
-        # `collections::{HashMap, HashSet, VecDeque}` style imports inside a `use std::{...}` block
-        def repl_group(m):
-            nonlocal n
+        moved = set()
+
+        def group(m):
             items = [i.strip() for i in m.group(1).split(",") if i.strip()]
             keep = [i for i in items if i not in ("HashMap", "HashSet")]
-            moved = [i for i in items if i in ("HashMap", "HashSet")]
-            if not moved:
-                return m.group(0)
-            n += 1
-            out = ""
-            if keep:
-                out = "collections::{%s}" % ", ".join(keep)
-            else:
-                out = "collections::{}"
-            return out
-        moved_any = set()
-        def track(m):
-            items = [i.strip() for i in m.group(1).split(",") if i.strip()]
             for i in items:
                 if i in ("HashMap", "HashSet"):
-                    moved_any.add(i)
-            return repl_group(m)
-        s2 = re.sub(r"collections::\{([^}]*)\}", track, s)
-        s2, k1 = re.subn(r"use std::collections::HashMap;", lambda m: (moved_any.add("HashMap") or ""), s2)
-        s2, k2 = re.subn(r"use std::collections::HashSet;", lambda m: (moved_any.add("HashSet") or ""), s2)
-        s2 = re.sub(r"std::collections::hash_map::Entry", "crate::verif_map::Entry", s2)
-        s2 = re.sub(r"std::collections::HashMap", "crate::verif_map::HashMap", s2)
-        s2 = re.sub(r"std::collections::HashSet", "crate::verif_map::HashSet", s2)
-        if moved_any:
-            # add the import after the first `use` block start: put at top of file after leading comments
-            imp = "use crate::verif_map::{%s};\n" % ", ".join(sorted(moved_any))
-            m = re.search(r"^use ", s2, flags=re.M)
-            s2 = s2[:m.start()] + imp + s2[m.start():]
-        open(p, "w").write(s2)
+                    moved.add(i)
+            return "collections::{%s}" % ", ".join(keep)
+
+        s = re.sub(r"collections::\{([^}]*)\}", group, s)
+
+        def single(m):
+            moved.add(m.group(2))
+            return m.group(1)
+        # `use std::{collections::HashMap, path::Path};` -> drop the item from the group
+        s = re.sub(r"([{,]\s*)collections::(HashMap|HashSet)\s*,\s*", single, s)
+        s = re.sub(r"use std::collections::(HashMap|HashSet);", lambda m: (moved.add(m.group(1)) or ""), s)
+        s = s.replace("std::collections::hash_map::Entry", "crate::verif_map::Entry")
+        s = s.replace("std::collections::HashMap", "crate::verif_map::HashMap")
+        s = s.replace("std::collections::HashSet", "crate::verif_map::HashSet")
+        if moved:
+            imp = "use crate::verif_map::{%s};\n" % ", ".join(sorted(moved))
+            m = re.search(r"^use ", s, flags=re.M)
+            s = s[:m.start()] + imp + s[m.start():]
+        open(p, "w").write(s)
 
 
 # ------------------------------------------------------------------ running kani
